@@ -240,6 +240,14 @@ itw_harness! { fn c23_other_event_cancels_pending_read_before_polling() {
     {
         c22::reset([Step::Ready; 3]);
         let mut st = sleeping_task();
+        // the callback may arrive while the task is still SLEEPING, or after another task already woke it (WOKEN, the item is
+        // written and the read's completion is queued at the host) but BEFORE the host reports the stream's own event:
+        // in both cases the runtime still believes a read is outstanding and must settle it before polling.
+        let woken_first: bool = kani::any();
+        if woken_first {
+            st.shared.wake_by_ref();
+            vassert!(h().unit_writes == 1 && st.shared.sleep_state.load(Ordering::Relaxed) == SLEEP_STATE_WOKEN);
+        }
         let rc2 = st.callback(EVENT_NONE, 0, 0);
         vassert!(sc().polls == 1);
         vassert!(!sc_read_pending_during_poll(), "C23: the pending wakeup read is cancelled before the task polls again");
@@ -248,6 +256,8 @@ itw_harness! { fn c23_other_event_cancels_pending_read_before_polling() {
         inv(&st);
         no_host_trap();
         core::mem::forget(st);
+        kani::cover!(woken_first);
+        kani::cover!(!woken_first);
     }
 }}
 
